@@ -47,6 +47,11 @@ def run(chk: Check, proj: Project) -> None:
 
     s5_accessors(chk, proj, ["CONTEXT_BEHAVIOR"], rule="S8")
     s10_mode_source(chk, proj, w)
+    from . import C06
+
+    # variable layers of the caller's Context only (`<ctx>.push/.update`); the render_context window is C06's (F6b)
+    chk.borrow("S11", "a layer pushed on the CALLER's Context in statement form is popped also when something in between raises (shared with C06-S2b; failed renders as such are C06)",
+               lambda sub: C06.s2b_push_pop(sub, proj, w), only=lambda o: o.construct.endswith(">.push") or o.construct.endswith(">.update") or o.construct.endswith(">.dicts.insert") or o.construct.endswith(">.dicts.append"))
 
 
 def s10_mode_source(chk: Check, proj: Project, w) -> None:
